@@ -265,4 +265,310 @@ theorem subsetV1_spec (b : List Nat) (h : Header) (palettes : List (Nat × Nat))
     · obtain ⟨a, b', c⟩ := hl3 l hl
       exact ⟨by omega, by omega, b', c⟩
 
+/-! ## the objects `Cpal::subset` builds -/
+
+/-- everything the theorems need to know about a successful run of `cpalObjects` -/
+structure Shape (b : List Nat) (palettes : List (Nat × Nat)) (packed : List Obj) (root : Obj) where
+  hd : Header
+  records : List Nat
+  map : List (Nat × Nat)
+  recBytes : List Nat
+  more : List Obj
+  ext : List Nat
+  ls : List Link
+  hhd : readHeader b = some hd
+  hoff : hd.recordsOffset ≠ 0
+  hrec : slice b hd.recordsOffset (4 * hd.numColorRecords) = some records
+  hgo : recordsGo records (retainedOf palettes) hd.indices [] 0 [] = .ok (map, recBytes)
+  hfit : map.length * ((retainedOf palettes).length % 65536) < 65536
+  hret : retainedOf palettes ≠ []
+  hpal : hd.numPalettes ≠ 0
+  hne : recBytes ≠ []
+  hpacked : packed = ⟨recBytes, []⟩ :: more
+  hmore : ∀ o ∈ more, o.links = []
+  hbytes : root.bytes = v0Bytes hd.version ((retainedOf palettes).length % 65536) hd.numPalettes
+      (map.length * ((retainedOf palettes).length % 65536))
+      (hd.indices.map fun f => (map.lookup f).getD 0) ++ ext
+  hext1 : hd.version = 1 → ext = List.replicate 12 0
+  hext0 : hd.version ≠ 1 → ext = [] ∧ ls = []
+  hlinks : root.links = ⟨8, 4, 0⟩ :: ls
+  hls : V1Links (v0Bytes hd.version ((retainedOf palettes).length % 65536) hd.numPalettes
+      (map.length * ((retainedOf palettes).length % 65536))
+      (hd.indices.map fun f => (map.lookup f).getD 0)).length packed ls
+
+theorem cpalObjects_shape (b : List Nat) (palettes : List (Nat × Nat)) (packed : List Obj) (root : Obj)
+    (h : cpalObjects b palettes = .ok (packed, root)) : Nonempty (Shape b palettes packed root) := by
+  unfold cpalObjects at h
+  split at h
+  · cases h
+  rename_i hd hhd
+  simp only [] at h
+  split at h
+  · cases h
+  rename_i hne
+  split at h
+  · cases h
+  rename_i hoff
+  split at h
+  · cases h
+  rename_i records hrec
+  obtain ⟨⟨map, recBytes⟩, hgo, h⟩ := bind_ok h
+  obtain ⟨⟨pk0, ls0⟩, hpl, h⟩ := bind_ok h
+  simp only [] at h hpl
+  split at h
+  · cases h
+  rename_i hfit
+  obtain ⟨i, extra, hls0, hpk0, hnl0, hget0, hne0⟩ := packLeaf_spec _ _ _ _ _ _ hpl
+  -- the first pack goes into the empty list
+  have hpk0' : pk0 = [⟨recBytes, []⟩] ∧ i = 0 := by
+    unfold packLeaf at hpl
+    rcases popPack_spec [] ⟨recBytes, []⟩ with ⟨_, hp⟩ | ⟨_, j, hj, _, _⟩ | ⟨_, hp⟩
+    · rw [hp] at hpl; cases hpl
+    · simp at hj
+    · rw [hp] at hpl
+      simp only [pure, Except.pure, List.nil_append, List.length_nil] at hpl
+      cases hpl
+      simp only [List.nil_append, List.append_cancel_left_eq] at hls0
+      injection hls0 with h1 h2
+      injection h1 with _ _ h3
+      exact ⟨rfl, h3.symm⟩
+  obtain ⟨hpk0', hi0⟩ := hpk0'
+  subst hi0
+  simp only [List.nil_append] at hls0
+  have hret : retainedOf palettes ≠ [] := by
+    intro e; apply hne; right; right; simp [e]
+  have hpal : hd.numPalettes ≠ 0 := by
+    intro e; apply hne; right; left; exact e
+  split at h
+  · -- version ≠ 1: no extension
+    rename_i hv
+    simp only [pure, Except.pure] at h
+    cases h
+    exact ⟨{ hd, records, map, recBytes, more := [], ext := [], ls := [], hhd, hoff, hrec, hgo,
+             hfit := by omega, hret, hpal, hne := hne0, hpacked := hpk0', hmore := by simp,
+             hbytes := by simp, hext1 := fun e => absurd e hv, hext0 := fun _ => ⟨rfl, rfl⟩,
+             hlinks := by rw [hls0], hls := by intro l hl; simp at hl }⟩
+  · rename_i hv
+    have hv1 : hd.version = 1 := by
+      by_cases e : hd.version = 1
+      · exact e
+      · exact absurd e hv
+    obtain ⟨⟨pk1, ls1⟩, hs, h⟩ := bind_ok h
+    simp only [pure, Except.pure] at h
+    cases h
+    obtain ⟨extra1, ls', hpk1, hnl1, hls1, hv1l⟩ := subsetV1_spec _ _ _ _ _ _ _ _ hs
+    exact ⟨{ hd, records, map, recBytes, more := extra1, ext := List.replicate 12 0, ls := ls', hhd, hoff,
+             hrec, hgo, hfit := by omega, hret, hpal, hne := hne0,
+             hpacked := by rw [hpk1, hpk0']; rfl, hmore := hnl1,
+             hbytes := rfl, hext1 := fun _ => rfl, hext0 := fun e => absurd hv1 e,
+             hlinks := by rw [hls1, hls0]; rfl, hls := hv1l }⟩
+
+/-! ## reading the header back -/
+
+theorem rdList16_length (b : List Nat) : ∀ (n p : Nat) (xs : List Nat), rdList16 b p n = some xs → xs.length = n
+  | 0, p, xs, h => by simp only [rdList16] at h; cases h; rfl
+  | n + 1, p, xs, h => by
+    simp only [rdList16] at h
+    cases h1 : rd16 b p with
+    | none => rw [h1] at h; cases h
+    | some v =>
+      cases h2 : rdList16 b (p + 2) n with
+      | none => rw [h1, h2] at h; cases h
+      | some rest =>
+        rw [h1, h2] at h
+        simp only [Option.bind_eq_bind, Option.bind_some, pure] at h
+        cases h
+        simp [rdList16_length b n (p + 2) rest h2]
+
+theorem rdList16_congr (X Y : List Nat) : ∀ (n p : Nat),
+    (∀ i, i < n → rd16 X (p + 2 * i) = rd16 Y (p + 2 * i)) → rdList16 X p n = rdList16 Y p n
+  | 0, p, _ => by simp [rdList16]
+  | n + 1, p, h => by
+    simp only [rdList16]
+    have h0 := h 0 (by omega)
+    simp only [Nat.mul_zero, Nat.add_zero] at h0
+    rw [h0, rdList16_congr X Y n (p + 2) (fun i hi => by
+      have := h (i + 1) (by omega)
+      rw [show p + 2 * (i + 1) = p + 2 + 2 * i by omega] at this
+      exact this)]
+
+theorem rdList16_flatMap : ∀ (xs pre post : List Nat), (∀ x ∈ xs, x < 65536) →
+    rdList16 (pre ++ (xs.flatMap (beBytes 2) ++ post)) pre.length xs.length = some xs
+  | [], pre, post, _ => by simp [rdList16]
+  | x :: xs, pre, post, h => by
+    simp only [List.flatMap_cons, List.length_cons, rdList16, List.append_assoc]
+    have h1 : rd16 (pre ++ (beBytes 2 x ++ (xs.flatMap (beBytes 2) ++ post))) pre.length = some x := by
+      have := @rdN_append_right 2 pre (beBytes 2 x ++ (xs.flatMap (beBytes 2) ++ post)) 0
+      simp only [Nat.add_zero] at this
+      unfold rd16
+      rw [this]
+      exact rdN_beBytes (by have := h x (by simp); omega)
+    rw [h1]
+    have h2 := rdList16_flatMap xs (pre ++ beBytes 2 x) post (fun y hy => h y (by simp [hy]))
+    simp only [List.length_append, beBytes_length, List.append_assoc] at h2
+    rw [h2]
+    rfl
+
+/-- the values stored in `first_record_idx_map` are u16 -/
+theorem map_values_lt (records retained : List Nat) (map : List (Nat × Nat)) (newIdx : Nat) (out : List Nat)
+    (inv : RecInv records retained map newIdx out) (f : Nat) : (map.lookup f).getD 0 < 65536 := by
+  cases h : map.lookup f with
+  | none => simp
+  | some nf =>
+    obtain ⟨k, _, hnf, _⟩ := inv.blocks f nf h
+    simp only [Option.getD_some]
+    rw [hnf]
+    exact Nat.mod_lt _ (by omega)
+
+/-! ## the laid-out table -/
+
+theorem flatMap_bytes_length (os : List Obj) : (os.flatMap (·.bytes)).length = (os.map Obj.size).sum := by
+  induction os with
+  | nil => simp
+  | cons o os ih => simp [List.flatMap_cons, ih, Obj.size]
+
+theorem sum_map_reverse (os : List Obj) : (os.reverse.map Obj.size).sum = (os.map Obj.size).sum := by
+  induction os with
+  | nil => simp
+  | cons o os ih => simp [List.sum_append, ih]; omega
+
+theorem v0Bytes_length (ver n p c : Nat) (idx : List Nat) :
+    (v0Bytes ver n p c idx).length = 12 + 2 * idx.length := by
+  unfold v0Bytes
+  simp only [List.length_append, beBytes_length, List.length_cons, List.length_nil]
+  have : (idx.flatMap (beBytes 2)).length = 2 * idx.length := by
+    induction idx with
+    | nil => simp
+    | cons x xs ih => simp [List.flatMap_cons, beBytes_length, ih]; omega
+  omega
+
+/-- the root object after link resolution and what follows it -/
+theorem layout_shape (b : List Nat) (palettes : List (Nat × Nat)) (packed : List Obj) (root : Obj)
+    (out : List Nat) (sh : Shape b palettes packed root) (hout : layout packed root = .ok out) :
+    ∃ B mid, out = B ++ (mid ++ sh.recBytes) ∧ B.length = root.bytes.length ∧
+      (∀ w p, p + w ≤ 8 → rdN w B p = rdN w root.bytes p) ∧
+      rdN 4 B 8 = some (B.length + mid.length) ∧
+      (∀ w p, 12 ≤ p → p + w ≤ 12 + 2 * sh.hd.indices.length → rdN w B p = rdN w root.bytes p) := by
+  obtain ⟨hd, records, map, recBytes, more, ext, ls, hhd, hoff, hrec, hgo, hfit, hret, hpal, hne, hpacked,
+    hmore, hbytes, hext1, hext0, hlinks, hls'⟩ := sh
+  simp only []
+  unfold layout at hout
+  split at hout
+  · cases hout
+  rename_i hov
+  simp only [pure, Except.pure] at hout
+  cases hout
+  have hnl : ∀ o ∈ packed, o.links = [] := by
+    intro o ho
+    rw [hpacked] at ho
+    cases ho with
+    | head => rfl
+    | tail _ ho => exact hmore o ho
+  have hbody : bodyUpTo packed packed.length = more.reverse.flatMap (·.bytes) ++ recBytes := by
+    rw [bodyUpTo_nolinks _ hnl _ (Nat.le_refl _), List.take_length, hpacked]
+    simp [List.flatMap_append]
+  refine ⟨patchRoot packed root, more.reverse.flatMap (·.bytes), by rw [hbody], ?_⟩
+  -- the offset of the record array
+  have hoff0 : rootOff root.bytes.length packed 0 = root.bytes.length + (more.reverse.flatMap (·.bytes)).length := by
+    unfold rootOff
+    rw [hpacked, flatMap_bytes_length, sum_map_reverse]
+    simp
+  have hsmall : rootOff root.bytes.length packed 0 < 256 ^ 4 := by
+    simp only [linkOverflow, Bool.or_eq_true, not_or] at hov
+    have h1 := hov.1
+    rw [hlinks] at h1
+    simp only [List.any_cons, Bool.or_eq_true, not_or, decide_eq_true_eq] at h1
+    omega
+  -- the length of the root object
+  have hv0 := v0Bytes_length hd.version ((retainedOf palettes).length % 65536) hd.numPalettes
+    (map.length * ((retainedOf palettes).length % 65536))
+    (hd.indices.map fun f => (map.lookup f).getD 0)
+  simp only [List.length_map] at hv0
+  have hrl : root.bytes.length = 12 + 2 * hd.indices.length + ext.length := by
+    rw [hbytes, List.length_append, hv0]
+  -- the links behind the first one
+  have hls : ∀ l ∈ ls, 12 + 2 * hd.indices.length ≤ l.pos ∧
+      l.pos + l.width ≤ (writeBE root.bytes 8 4 (rootOff root.bytes.length packed 0)).length := by
+    intro l hl
+    rw [writeBE_length (by omega)]
+    by_cases hv : hd.version = 1
+    · have he := hext1 hv
+      obtain ⟨a, b', c, _⟩ := hls' l hl
+      rw [hv0] at a b'
+      rw [hrl, he, c]
+      simp only [List.length_replicate]
+      omega
+    · have := (hext0 hv).2
+      rw [this] at hl
+      cases hl
+  have hpatch : patchRoot packed root =
+      ls.foldl (fun b l => writeBE b l.pos l.width (rootOff root.bytes.length packed l.target))
+        (writeBE root.bytes 8 4 (rootOff root.bytes.length packed 0)) := by
+    unfold patchRoot
+    rw [hlinks]
+    rfl
+  obtain ⟨hlen, hrd⟩ := foldl_writeBE_before (fun l => rootOff root.bytes.length packed l.target)
+    (12 + 2 * hd.indices.length) ls _ hls
+  rw [← hpatch] at hlen hrd
+  have hlen' : (patchRoot packed root).length = root.bytes.length := by
+    rw [hlen, writeBE_length (by omega)]
+  refine ⟨hlen', ?_, ?_, ?_⟩
+  · intro w p hp
+    rw [hrd w p (by omega)]
+    exact rdN_writeBE_before (by omega) (by omega)
+  · rw [hrd 4 8 (by omega), hlen', ← hoff0]
+    exact rdN_writeBE_same (by omega) hsmall
+  · intro w p hp1 hp2
+    rw [hrd w p hp2]
+    exact rdN_writeBE_after (by omega) (by omega)
+
+/-! ## the header of the subset -/
+
+theorem readHeader_fields (b : List Nat) (hd : Header) (h : readHeader b = some hd) :
+    rd16 b 0 = some hd.version ∧ rd16 b 2 = some hd.numEntries ∧ rd16 b 4 = some hd.numPalettes ∧
+    rd16 b 6 = some hd.numColorRecords ∧ rd32 b 8 = some hd.recordsOffset ∧
+    rdList16 b 12 hd.numPalettes = some hd.indices := by
+  unfold readHeader at h
+  split at h
+  · rename_i version numEntries numPalettes numColorRecords recordsOffset h0 h2 h4 h6 h8
+    split at h
+    · rename_i indices hl
+      simp only [] at h
+      split at h
+      · split at h
+        · simp only [Option.some.injEq] at h
+          subst h
+          exact ⟨h0, h2, h4, h6, h8, hl⟩
+        · cases h
+      · simp only [Option.some.injEq] at h
+        subst h
+        exact ⟨h0, h2, h4, h6, h8, hl⟩
+    · cases h
+  · cases h
+
+/-- reading a 16-bit field at an even position among the first four fields of `v0Bytes … ++ ext` -/
+theorem v0Bytes_fields (ver n p c : Nat) (idx ext : List Nat)
+    (hv : ver < 65536) (hn : n < 65536) (hp : p < 65536) (hc : c < 65536) (hi : ∀ x ∈ idx, x < 65536) :
+    let X := v0Bytes ver n p c idx ++ ext
+    rd16 X 0 = some ver ∧ rd16 X 2 = some n ∧ rd16 X 4 = some p ∧ rd16 X 6 = some c ∧
+    rdList16 X 12 idx.length = some idx := by
+  simp only [v0Bytes, List.append_assoc]
+  have e2 : ∀ v, (beBytes 2 v).length = 2 := fun v => beBytes_length 2 v
+  refine ⟨?_, ?_, ?_, ?_, ?_⟩
+  · exact rdN_beBytes (by omega)
+  · unfold rd16
+    rw [show (2 : Nat) = 2 + 0 by rfl, rdN_append_right' (e2 ver)]
+    exact rdN_beBytes (by omega)
+  · unfold rd16
+    rw [show (4 : Nat) = 2 + (2 + 0) by rfl, rdN_append_right' (e2 ver), rdN_append_right' (e2 n)]
+    exact rdN_beBytes (by omega)
+  · unfold rd16
+    rw [show (6 : Nat) = 2 + (2 + (2 + 0)) by rfl, rdN_append_right' (e2 ver), rdN_append_right' (e2 n),
+      rdN_append_right' (e2 p)]
+    exact rdN_beBytes (by omega)
+  · have := rdList16_flatMap idx (beBytes 2 ver ++ (beBytes 2 n ++ (beBytes 2 p ++ (beBytes 2 c ++ [0, 0, 0, 0]))))
+      ext hi
+    simp only [List.length_append, beBytes_length, List.length_cons, List.length_nil, List.append_assoc] at this
+    exact this
+
 end FontVerif.SubsetCpal
